@@ -85,6 +85,13 @@ def run(tier, seed):
     for data in (b"20 text/plain\r\nhello", b"51 gone\r\n"):
         for cut in range(1, len(data)):
             ups.append(("stream", data, None, [cut]))
+    # every media-type shape (empty = text/gemini by default, text with and without a charset, unknown / odd charset labels, binary)
+    # with bodies that are not UTF-8: a relay has nothing to decode
+    for meta in (b"", b" ", b"text/gemini", b"text/plain", b"TEXT/PLAIN", b"text/plain; charset=utf-8", b"text/plain; charset=bogus", b"text/plain; charset=utf-8\x00",
+                 b"; charset=utf-16", b"application/octet-stream", b"text/x; charset="):
+        for body in (b"\xff\xfe\x00raw \xe9\xe8 bytes\x80\n", b"\x80", b"caf\xe9"):
+            ups.append(("stream", b"20 " + meta + b"\r\n" + body, None))
+            ups.append(("stream", (b"20" if meta == b"" else b"21 " + meta) + b"\r\n" + body, None))
     ups += [gen_upstream(rng) for _ in range(n)]
     forced = {}
     def chunker(data):
